@@ -37,7 +37,8 @@ def exec_case(case):
     from mouette.geometry import Vec
     P = M.procedural
     events = []
-    for ev in case["events"]:
+    twice = [(ev, first) for ev in case["events"] for first in (True, False)]      # every call is made twice: the first result is mutated in place and dropped
+    for ev, first in twice:
         gen, p = ev["gen"], dict(ev["p"])
         e = {"op": "gen", "gen": gen, "p": p, "pcls": ev.get("pcls", ""), "exc": "", "cls": "", "nv": 0, "F": [], "ncells": 0, "ne": 0, "E": [],
              "m": [], "pos": [], "box": [], "fattrs": [], "derr": 0}
@@ -53,9 +54,11 @@ def exec_case(case):
                 e["pos"] = _ipos(m)
             elif gen == "axis_aligned_cube":
                 m = P.axis_aligned_cube(colored=bool(p["colored"]), triangulate=bool(p["triangulate"]))
+                e["pos"] = [[int(round(2 * float(c))) if abs(2 * float(c) - round(2 * float(c))) < 1e-9 else 99999 for c in v] for v in m.vertices]    # corners x 2
             elif gen == "hexahedron":
                 pts = [V(q) for q in p["pts"]]
                 m = P.hexahedron(*pts, colored=bool(p["colored"]), triangulate=bool(p["triangulate"]), volume=bool(p["volume"]))
+                e["pos"] = _ipos(m)
             elif gen == "hexahedron_4pts":
                 m = P.hexahedron_4pts(V(p["P0"]), V(p["P1"]), V(p["P2"]), V(p["P3"]), colored=bool(p["colored"]), volume=bool(p["volume"]))
                 e["pos"] = _ipos(m)
@@ -155,12 +158,20 @@ def exec_case(case):
                 if p["want_m"] == [0, 0]:
                     vals = [x / vals[0] for x in vals]           # no absolute radius is promised: equidistance from the centre
                 e["m"] = [rat(x) for x in vals]
+            # the caller owns what a generator returns: after it has been observed, every vertex is multiplied in place - a later call of any
+            # generator in this process must not notice (module-level constants shared with returned meshes would)
+            try:
+                for v_ in m.vertices:
+                    v_ *= 3.0
+            except Exception:
+                pass
         except KeyError:
             raise
         except Exception as ex:
             e["exc"] = type(ex).__name__ + ":" + str(ex)[:80]
         e["p"] = p
-        events.append(e)
+        if not first:
+            events.append(e)
     return {"id": case["id"], "given": {"kind": "procedural"}, "events": events}
 
 
@@ -193,6 +204,8 @@ def _params(rng, thorough):
     for M_, m_, tri in itertools.product(res, res, (0, 1)):
         R, r = rng.choice([([1, 1], [1, 4]), ([2, 1], [1, 2]), ([3, 1], [1, 1])])
         add("torus", {"M": M_, "m": m_, "R": R, "r": r, "triangulate": tri, "want_m": sq(r)}, "equal" if M_ == m_ else "unequal")
+    for M_, m_ in ((49, 3), (3, 49), (3, 98)) + (((103, 3), (4, 107)) if thorough else ()):      # counts at which a float-step range has one entry too many
+        add("torus", {"M": M_, "m": m_, "R": [3, 1], "r": [1, 2], "triangulate": 0, "want_m": sq([1, 2])}, "unequal")
     for nl, ng in itertools.product([3, 4, 5], res):
         c, r = rng.choice(cs), rng.choice(radii)
         add("sphere_uv", {"n_lat": nl, "n_long": ng, "c": c, "r": r, "want_m": sq(r)})
